@@ -153,9 +153,36 @@ Theorem answer_ad_partial : forall E qname qtype cd resp0 pds zone m,
     in_zone qname s = true /\
     find_ds E (Some s) qname pds false = Ok ds /\ ds <> [] /\
     verify_dnssec E s resp ds = (true, None) /\
-    verify_wildcard (fun nc => e_wild E (m_id resp) nc s) (m_ans resp) true = (true, None).
+    verify_wildcard (fun nc => e_wild E (m_id resp) (denial_records (filter_zone (m_ns resp) s)) nc s) (m_ans resp) true = (true, None).
 Proof. exact answer_ad_partial_lemma. Qed.
 Print Assumptions answer_ad_partial.
+
+(* RFC 4035 §5.3.4 / "dropped or foreign NSEC or NSEC3": the next-closer check of a wildcard expansion is shown only
+   NSEC/NSEC3 records of the authority section that lie inside the zone of the signer verifyDNSSEC has just accepted —
+   owner and, for NSEC, next name (the records VerifyRRSIG skipped as out-of-zone were validated by nobody) *)
+Theorem wildcard_denial_view_in_signer_zone : forall ns s r,
+  In r (denial_records (filter_zone ns s)) ->
+  In r ns /\ in_zone (r_owner r) s = true /\
+  (forall nx, r_rd r = RdNsec nx -> in_zone nx s = true) /\
+  ((r_type r =? T_NSEC) || (r_type r =? T_NSEC3)) = true.
+Proof. exact denial_view_in_signer_zone_lemma. Qed.
+Print Assumptions wildcard_denial_view_in_signer_zone.
+
+(* …hence padding the authority section, front or back, with any records owned outside that zone (unsigned, or
+   signed by a sibling or the parent) leaves the wildcard verdict of answer() what it was: a foreign span over qname
+   cannot stand in for the zone's own denial *)
+Theorem foreign_padding_inert : forall E id ans ns pre post s,
+  (forall r, In r (pre ++ post) -> in_zone (r_owner r) s = false) ->
+  verify_wildcard (fun nc => e_wild E id (denial_records (filter_zone (pre ++ ns ++ post) s)) nc s) ans true =
+  verify_wildcard (fun nc => e_wild E id (denial_records (filter_zone ns s)) nc s) ans true.
+Proof. exact wildcard_step_ignores_foreign_padding_lemma. Qed.
+Print Assumptions foreign_padding_inert.
+
+Theorem straddling_nsec_inert : forall ns s r nx,
+  r_rd r = RdNsec nx -> in_zone nx s = false ->
+  denial_records (filter_zone (r :: ns) s) = denial_records (filter_zone ns s).
+Proof. exact straddling_nsec_inert_lemma. Qed.
+Print Assumptions straddling_nsec_inert.
 
 (* unsigned data is served only when the zone is not secure or an insecure delegation is proven, and that
    proof rests on a DS-denial response verifyDNSSEC accepted *)
